@@ -220,19 +220,24 @@ def type_text(src, kind, name, manifest, keep_fields=None):
 
 def raw_item_text(src, spec, manifest):
     """Verbatim text of an item (attributes included): 'impl HEADER', 'enum NAME', 'struct NAME',
-    'static NAME', 'fn NAME'."""
+    'static NAME', 'const NAME', 'fn NAME'."""
     st = src.st
     kind, _, name = spec.partition(' ')
-    if kind == 'static':
+    if kind in ('static', 'const'):
         for i, t in enumerate(st):
-            if t.kind == 'ident' and t.text == 'static' and st[i + 1].text == name:
+            if t.kind == 'ident' and t.text == kind and st[i + 1].text == name:
                 j = i
-                while st[j].text != ';':
+                depth = 0
+                while not (st[j].text == ';' and depth == 0):
+                    if st[j].text in ('[', '(', '{'):
+                        depth += 1
+                    elif st[j].text in (']', ')', '}'):
+                        depth -= 1
                     j += 1
                 text = src.text[t.start:st[j].end]
                 break
         else:
-            raise ExtractError('static %s not found in %s' % (name, src.display))
+            raise ExtractError('%s %s not found in %s' % (kind, name, src.display))
     else:
         found = None
         want = norm(spec)
